@@ -62,6 +62,10 @@ def run(c):
         dict(name="gen_timing_issue", depth=depth, exp_choices=exps, report_set=(1,), horizon=9, check=timing),
         dict(name="gen_late0", depth=depth - 1, exp_choices=exps, report_set=(), horizon=9, late=0, check=timing),
         dict(name="gen_issue", cfg=issue_cfg, depth=depth + 1, exp_choices=(6,), report_set=(1, 2, 3), horizon=6, max_adv=2, check=issue_inv),
+        # dedup window of 2 ticks: a duplicate INSIDE the window carries a different timestamp; then new issues at capacity
+        # (two trailing steps distinguish histories here: a duplicate is a no-op in the spec, what follows it is the test)
+        dict(name="gen_issue_dedup2", cfg=dict(issue_cfg, dedup=2, issue_cap=1), depth=depth + 1, exp_choices=(6,), report_set=(1, 2), horizon=3, max_adv=1,
+             check=issue_inv, view_depth=2),
         dict(name="gen_v2", cfg=v2, depth=depth - 1, exp_choices=(1, 4), report_set=(), horizon=9, check=timing),
         dict(name="gen_v3", cfg=v3, depth=depth - 1, exp_choices=(2, 6), report_set=(), horizon=9, check=timing),
     ]
@@ -92,7 +96,15 @@ def run(c):
             dict(name="rec_late0", runs=n, steps=200 if thorough else 100, salt=62, late=0),
             # "repeat one issue for hours": a single issue, every few ticks, for a long run
             dict(name="rec_one_issue", runs=3, steps=1500 if thorough else 600, salt=63, issues=(1,), cfg={"idle": 50}),
-            dict(name="rec_bursts", runs=n, steps=300 if thorough else 150, salt=64, burst=6, cfg={"chan_cap": 4})]
+            dict(name="rec_bursts", runs=n, steps=300 if thorough else 150, salt=64, burst=6, cfg={"chan_cap": 4}),
+            # duplicates inside a 3-tick dedup window (different timestamps), fresh issues while the issue cache is full
+            dict(name="rec_dedup3", runs=n, steps=300 if thorough else 150, salt=65, burst=4, cfg={"dedup": 3, "idle": 40, "issue_cap": 2})]
+    # backoff with jitter > 0 and enough consecutive failures to reach the ceiling: the retry instants are off the tick grid,
+    # so these runs are judged by the P-monitors only (RefetchWindow on the REAL next_refetch: <= ceiling exactly, >= min delay)
+    jit = {"backoff_min": 1, "backoff_max": 4, "backoff_factor": 2.0, "backoff_jitter": 0.6, "interval": 8, "idle": 400}
+    for jn, jc in (("jitter", jit), ("jitter_small_cap", dict(jit, backoff_max=2, backoff_jitter=1.5))):
+        c.cov["evaluations"] += pc.directed_replay(c, "C06", binp, "directed_" + jn, pc.harness_meta("A", cfg=jc), pc.backoff_histories())
+        recs.append(dict(name="rec_" + jn, runs=n, steps=200 if thorough else 120, salt=66, cfg=jc, validate=False))
     for r in recs:
         st = pc.record_validate(c, "C06", binp, u="A", **r)
         traces += st["accepted_runs"]
